@@ -64,6 +64,60 @@ Fixpoint final1 (c : cfg) (ap : option counter * option Z) (ts : list Z) : optio
   | t :: r => final1 c (fst (step1 c ap t)) r
   end.
 
+(* ================= the rule with bounded LRU dictionaries (lru_cache.LRUCache) =================
+   A dictionary is the list of (key, value), most recently used first.  Get moves the entry to the front; Add updates
+   and moves to the front, or pushes a new entry and evicts the last one when the length exceeds the capacity. *)
+Fixpoint lru_find {A} (k : Z) (l : list (Z * A)) : option A :=
+  match l with [] => None | (k', v) :: r => if k' =? k then Some v else lru_find k r end.
+Fixpoint lru_remove {A} (k : Z) (l : list (Z * A)) : list (Z * A) :=
+  match l with [] => [] | (k', v) :: r => if k' =? k then r else (k', v) :: lru_remove k r end.
+Definition lru_get {A} (k : Z) (l : list (Z * A)) : option A * list (Z * A) :=
+  match lru_find k l with Some v => (Some v, (k, v) :: lru_remove k l) | None => (None, l) end.
+Definition lru_add {A} (cap : Z) (k : Z) (v : A) (l : list (Z * A)) : list (Z * A) :=
+  match lru_find k l with
+  | Some _ => (k, v) :: lru_remove k l
+  | None => let l' := (k, v) :: l in if cap <? Z.of_nat (length l') then removelast l' else l'
+  end.
+(* the AccessCounter is shared by pointer: incrementing it changes the stored entry in place (if still stored) *)
+Fixpoint lru_update {A} (k : Z) (v : A) (l : list (Z * A)) : list (Z * A) :=
+  match l with [] => [] | (k', v') :: r => if k' =? k then (k', v) :: r else (k', v') :: lru_update k v r end.
+
+Record lstate := { l_acc : list (Z * counter); l_pr : list (Z * Z); l_acap : Z; l_pcap : Z }.
+Definition should_deny_l (pr : list (Z * Z)) (k t : Z) : bool * list (Z * Z) :=
+  match lru_get k pr with
+  | (None, _) => (false, pr)
+  | (Some f, pr') => if t <? f then (true, pr') else (false, lru_remove k pr')
+  end.
+Definition record_and_check_l (c : cfg) (st : lstate) (k t : Z) : lstate * bool :=
+  if k <? 0 then (st, false)
+  else
+    let '(d1, pr1) := should_deny_l (l_pr st) k t in
+    if d1 then ({| l_acc := l_acc st; l_pr := pr1; l_acap := l_acap st; l_pcap := l_pcap st |}, true)
+    else
+      let '(cs, acc1) := match lru_get k (l_acc st) with
+                         | (Some cs, acc') => (cs, acc')
+                         | (None, _) => ((0, t), lru_add (l_acap st) k (0, t) (l_acc st))
+                         end in
+      let '(cs', block, rest) := inc_and_check c cs t in
+      let acc2 := lru_update k cs' acc1 in
+      let '(acc3, pr2) := if block then (lru_remove k acc2, lru_add (l_pcap st) k (c_stay c + rest + t) pr1)
+                          else (acc2, pr1) in
+      let '(d2, pr3) := should_deny_l pr2 k t in
+      ({| l_acc := acc3; l_pr := pr3; l_acap := l_acap st; l_pcap := l_pcap st |}, d2).
+(* initDict(oldRule) on reload: the dictionaries are kept, capacities only ever grow *)
+Definition reload_l (st : lstate) (newcap : Z) : lstate :=
+  {| l_acc := l_acc st; l_pr := l_pr st;
+     l_acap := if newcap <? l_acap st then l_acap st else newcap;
+     l_pcap := if newcap <? l_pcap st then l_pcap st else newcap |}.
+(* ops: (key, time) request; key -1: unsignable request; key -2: reload with new dictionary sizes (second field) *)
+Fixpoint run_lru (c : cfg) (st : lstate) (ops : list (Z * Z)) : list bool :=
+  match ops with
+  | [] => []
+  | (k, t) :: r =>
+    if k =? -2 then false :: run_lru c (reload_l st t) r
+    else let '(st', d) := record_and_check_l c st k t in d :: run_lru c st' r
+  end.
+
 (* ---- vocabulary for the "below the threshold" statement *)
 (* number of request times in l that fall into the closed window [a, b] *)
 Fixpoint count_in (l : list Z) (a b : Z) : Z :=
